@@ -88,3 +88,8 @@ V('C05', 'caused-commands-not-collected', 'edb/pgsql/delta.py',
   'for op in self.get_caused():',
   'for op in self.get_subcommands(include_prerequisites=False, include_caused=False):',
   'C05.R10', 'collects-get_caused')
+
+# round 5: the stored seeded breaks this property's check reports, replayed as variants
+from sa.selftest import VP  # noqa
+VP('C05', 'C05-e2', 'C05.L', 'loop-invariant-filter')
+VP('C05', 'C05-e1', 'C05.R10', 'own-table-dropped')
